@@ -179,6 +179,13 @@ def gen_structure(rng, gspec_info, rank):
 # rendering into specification formats
 
 
+def is_all_zero(cond) -> bool:
+    """True if the condition can be written as a bare alias string (all parameters zero)."""
+    if cond["vform"] != "zero":
+        return False
+    return cond["kind"] != "mixed" or (np.ndim(cond["beta"]) == 0 and cond["beta"] == 0)
+
+
 def render_condition(rng, cond, style=None):
     """Local condition in one of the documented formats."""
     alias = cond["alias"]
@@ -199,7 +206,7 @@ def render_condition(rng, cond, style=None):
             return {alias: v_out}
         return {"type": alias, "value": v_out, "const": beta}
     style = style or str(rng.choice(["typed", "single", "string"]))
-    if cond["vform"] == "zero" and style == "string":
+    if is_all_zero(cond) and style == "string":
         return alias
     if style == "single":
         return {alias: v_out}
@@ -230,7 +237,7 @@ def render_spec(rng, structure, axes_names, boundary_names, accept_lists=True):
     formats = ["per_side", "per_side", "wildcard", "named"]
     if all_equal and not any_periodic:
         formats += ["uniform", "uniform"]
-    if all_equal and any_periodic and sides[0][2]["vform"] == "zero" and all("periodic" == ax.get("periodic", "periodic") for ax in axes):
+    if all_equal and any_periodic and is_all_zero(sides[0][2]) and all("periodic" == ax.get("periodic", "periodic") for ax in axes):
         formats += ["auto_periodic", "auto_periodic"]
     if accept_lists:
         formats += ["legacy_list"]
